@@ -212,7 +212,7 @@ func (E *Engine) attach(cfg *PropConfig, only string) []target {
 			continue
 		}
 		short := shortPkg(fnPkgPath(fn)) + "." + relName(fn)
-		if !all && !want[short] && !want[relName(fn)] {
+		if !all && !want[short] && !want[relName(fn)] && !want[fullName(fn)] && !want[fnPkgPath(fn)+"."+relName(fn)] {
 			continue
 		}
 		if only != "" && !strings.Contains(short, only) {
